@@ -113,8 +113,12 @@ pub fn shape(bytes: &[u8], seed: u64, depth: usize) -> BinaryData {
         1 if bytes.iter().all(|x| *x == 0) => BinaryData::zeroed(n),
         2 => {
             // slice of a larger parent
+            // the bytes just outside the window come from the same small pool the byte operands are drawn from (and from the
+            // window's own bytes), so an off-by-one at either edge finds something to see
             let pre = rng.below(3); let post = rng.below(3);
-            let mut p = rng.bytes(pre); p.extend_from_slice(bytes); p.extend(rng.bytes(post));
+            let pool = [0u8, 1, 0x41, 0x7f, 0x80, 0xff, 10];
+            let mut edge = |rng: &mut Rng, k: usize| -> Vec<u8> { (0..k).map(|_| match rng.below(3) { 0 => *rng.pick(&pool), 1 if !bytes.is_empty() => bytes[rng.below(bytes.len())], _ => rng.next() as u8 }).collect() };
+            let mut p = edge(&mut rng, pre); p.extend_from_slice(bytes); let tail = edge(&mut rng, post); p.extend(tail);
             let parent = sub(&mut rng, &p);
             BinaryData::slice(parent, pre, n).unwrap()
         }
